@@ -322,3 +322,26 @@ Definition id_from_p2p_addr (comps : list (N * bytes)) : option bytes :=
   | (code, v) :: _ => if code =? P_P2P then Some v else None
   | [] => None
   end.
+
+(* ---- round 3: private keys ------------------------------------------------------------------- *)
+(* crypto/pb PrivateKey { required KeyType Type = 1; required bytes Data = 2 }: the same framing
+   as PublicKey *)
+Definition marshal_privkey (kt : N) (data : bytes) : bytes := marshal_pubkey kt data.
+Definition parse_privkey (b : bytes) : option (N * bytes) := parse_pubkey b.
+
+(* ed25519.go: Raw() of a private key is seed (32) ++ public half (32).
+   UnmarshalEd25519PrivateKey accepts exactly 64 bytes, or the legacy 96 bytes
+   seed ++ pub ++ pub whose two copies of the public half agree.  NOTE (transcribed as it
+   is): the public half is NOT checked against the seed. *)
+Definition ed25519_priv_raw (seed pub : bytes) : bytes := seed ++ pub.
+
+Definition ed25519_priv_parts (data : bytes) : option (bytes * bytes) :=
+  if nlen data =? 64 then Some (firstn 32 data, skipn 32 data)
+  else if nlen data =? 96 then
+    let pub := firstn 32 (skipn 32 data) in
+    if bytes_eqb pub (skipn 64 data) then Some (firstn 32 data, pub) else None
+  else None.
+
+(* Ed25519PrivateKey.Equals: the whole 64 bytes, i.e. both halves *)
+Definition ed25519_priv_equal (a b : bytes * bytes) : bool :=
+  bytes_eqb (fst a) (fst b) && bytes_eqb (snd a) (snd b).
